@@ -120,6 +120,27 @@ def run(case: dict, lean: Lean) -> Outcome:
         pc = pb.build().clone()
         if pc.config_hash != hash0 or (pc.name, pc.version) != (pb.name, pb.version): failed.append("clone: name/version lost or hash changes on reload")
     except Exception as e: failed.append(f"clone raised {type(e).__name__}")
+    # the document keeps describing the pipeline it was taken from: after a modifying builder derived from the pipeline has re-pointed one of
+    # its connections, the pipeline's document, its hash, and what a clone rebuilds (without a hash-mismatch warning) are what they were
+    try:
+        P = pb.build(); doc_before = P.config.model_dump_json(exclude_none=True); hash_before = P.config_hash
+        mb = P.modify(); moved = None
+        srcs = [i.name for i in P.config.inputs] + list(P.config.literals)
+        for cname, spec in P.config.components.items():
+            for prm, cur in list(spec.inputs.items()):
+                alt = next((x for x in srcs if x != cur), None)
+                if alt is not None and moved is None:
+                    try: mb.connect(cname, **{prm: mb.node(alt)}); moved = (cname, prm, alt)
+                    except Exception: pass
+        if moved is not None:
+            with warnings.catch_warnings(record=True) as w:
+                warnings.simplefilter("always")
+                if P.config.model_dump_json(exclude_none=True) != doc_before or P.config_hash != hash_before:
+                    failed.append(f"the pipeline's document / hash changed after a modifying builder re-pointed {moved[0]}.{moved[1]}")
+                c2 = P.clone()
+                if c2.config_hash != hash_before: failed.append("clone after a modifying builder was rewired: hash differs from the pipeline's")
+                if any(issubclass(x.category, PipelineWarning) for x in w): failed.append("clone after a modifying builder was rewired: hash-mismatch warning")
+    except Exception as e: failed.append(f"modify / clone raised {type(e).__name__}")
     # a cloned *builder* describes the same pipeline
     try:
         bc = pb.clone()
